@@ -171,9 +171,10 @@ type c08Conn struct {
 	mc     *miniClient
 	node   int
 	id     string
-	hs     c08Span // latest successful handshake on this connection
-	lastKA c08Span // latest completed keep-alive (handshake or heartbeat)
-	chain  bool    // every keep-alive so far certainly fell inside the previous lifetime
+	hs     c08Span       // latest successful handshake on this connection
+	lastKA c08Span       // latest completed keep-alive (handshake or heartbeat)
+	chain  bool          // every keep-alive so far certainly fell inside the previous lifetime
+	aged   time.Duration // the stored registration was made to look this old (long session), 0 = not aged since its last handshake
 }
 
 type c08Client struct {
@@ -206,6 +207,7 @@ type c08World struct {
 	herr              string
 	ctx               context.Context
 	hsSeq             int    // control handshakes so far in this world (selects the connection_type variant)
+	ageSeq            int    // aging events so far in this world
 	tag               string // appended to every signature judged while set (names the interleaving of the heartbeat-window histories)
 	noSweepUnregister bool   // observed: the sweeper's close leaves the connection record behind
 	spareID           int64  // a provisioned second identity reused across the histories of a world
@@ -475,6 +477,7 @@ func (w *c08World) relogin(cl *c08Client) bool {
 	c.hs = c08Span{c0, r0}
 	c.lastKA = c.hs
 	c.chain = true
+	c.aged = 0
 	cl.cloudDirty = ""
 	w.ev(cl, "re", "relogin "+c.id)
 	w.run.Count("relogins", 1)
@@ -550,6 +553,7 @@ func (w *c08World) takeover(cl, by *c08Client) bool {
 	c.hs = c08Span{c0, r0}
 	c.lastKA = c.hs
 	c.chain = true
+	c.aged = 0
 	by.cur, by.cleaned, by.lastNode, by.cloudDirty, by.active = c, 0, c.node, "", true
 	cl.cur = nil
 	cl.lost = append(cl.lost, c)
@@ -583,9 +587,57 @@ func (w *c08World) reloginZombie(cl *c08Client) bool {
 	z.hs = c08Span{c0, r0}
 	z.lastKA = z.hs
 	z.chain = true
+	z.aged = 0
 	cl.cur, cl.cleaned, cl.lastNode, cl.cloudDirty = z, 0, z.node, ""
 	w.ev(cl, "rz", fmt.Sprintf("relogin-on-abandoned %s@%s", z.id, w.nodes[z.node].NodeID))
 	w.run.Count("relogins_on_abandoned|"+w.be.name, 1)
+	return true
+}
+
+// ageSession moves the history forward in logical time: the client has been connected on
+// its current connection for `age` and has kept heartbeating all along. The stored
+// registration is rewritten to exactly what RegisterConnection at (now-age) followed by
+// heartbeat refreshes up to now leave behind: CreatedAt = now-age, ExpiresAt = now+lifetime,
+// everything else unchanged (same value type, same lifetime as a refresh writes it).
+// The reference does not change: the client is still connected there.
+func (w *c08World) ageSession(cl *c08Client, age time.Duration) bool {
+	c := cl.cur
+	if c == nil || cl.unsure != "" {
+		return false
+	}
+	n := w.nodes[c.node]
+	w.be.sync()
+	info, err := n.ConnSt.GetConnectionState(w.ctx, c.id)
+	if err != nil || info == nil {
+		w.run.Count("age_no_record", 1)
+		return false
+	}
+	st := w.be.shared
+	if w.be.name == "hybrid-pernode" {
+		st = w.be.perNode[c.node]
+	}
+	now := time.Now()
+	aged := *info
+	aged.CreatedAt = now.Add(-age)
+	aged.ExpiresAt = now.Add(w.ttl)
+	if err := st.Set("tunnox:conn_state:"+c.id, &aged, w.ttl); err != nil {
+		w.harnessError("age: rewriting the registration of %s: %v", c.id, err)
+		return false
+	}
+	// self-check through the public API: the record every node reads is the aged one
+	back, err := w.nodes[(c.node+1)%len(w.nodes)].ConnSt.GetConnectionState(w.ctx, c.id)
+	if err != nil || back == nil || back.ConnectionID != c.id || now.Sub(back.CreatedAt) < age-time.Minute {
+		w.harnessError("age: the aged registration of %s is not what the store API reads back (%+v, %v)", c.id, back, err)
+		return false
+	}
+	c.aged = age
+	c.lastKA = c08Span{now, time.Now()} // the rewrite also renews the lifetime, like a heartbeat refresh
+	kind := "ag"
+	if age > 48*time.Hour {
+		kind = "aG"
+	}
+	w.ev(cl, kind, fmt.Sprintf("session-aged-by-%s %s", age, c.id))
+	w.run.Count("aged_sessions|"+w.be.name, 1)
 	return true
 }
 
@@ -867,6 +919,8 @@ func c08KindClass(kind string) string {
 		return "late-heartbeat"
 	case kind == "sw":
 		return "sweep"
+	case kind == "ag" || kind == "aG" || kind == "a*":
+		return "session-aged"
 	case strings.HasPrefix(kind, "c"):
 		return "connect"
 	case strings.HasPrefix(kind, "t"):
@@ -1075,6 +1129,9 @@ func (w *c08World) judge(cl *c08Client, asker int, a c08Answer) *c08Pending {
 	if err == nil {
 		if gotNode == wantNode && gotConn == c.id {
 			w.run.Count("lookups_found_ok", 1)
+			if c.aged > 0 {
+				w.run.Count("found_ok_long_session|"+be, 1)
+			}
 			if mustFind && c2.After(c.hs.r.Add(w.ttl)) {
 				w.run.Count("kept_alive_past_ttl|"+be, 1)
 			}
@@ -1115,6 +1172,9 @@ func (w *c08World) judge(cl *c08Client, asker int, a c08Answer) *c08Pending {
 	}
 	if cl.broken == "" {
 		switch {
+		case c.aged > 0:
+			// the registration looks as old as the session is long (> 24 h), lifetime renewed
+			cl.broken = "C08:long-session-unlocatable|backend=" + be
 		case !r2.Before(c.hs.c.Add(w.ttl)):
 			// the lifetime given at the handshake may be over; only heartbeats
 			// (delivered in time, see mustFind) stand between the client and expiry
@@ -1164,6 +1224,16 @@ func (w *c08World) apply(cl *c08Client, sym string) bool {
 		return w.heartbeatZombie(cl, true)
 	case "hO":
 		return w.heartbeatZombie(cl, false)
+	case "a*": // 25 h and 72 h alternate over the aging events of a world
+		w.ageSeq++
+		if w.ageSeq%2 == 0 {
+			return w.ageSession(cl, 72*time.Hour)
+		}
+		return w.ageSession(cl, 25*time.Hour)
+	case "ag":
+		return w.ageSession(cl, 25*time.Hour)
+	case "aG":
+		return w.ageSession(cl, 72*time.Hour)
 	case "sw":
 		return w.sweepCur(cl)
 	case "zO":
@@ -1294,7 +1364,7 @@ func c08Applicable(seq []string, sym string) bool {
 	switch {
 	case len(sym) == 2 && sym[0] == 'c':
 		return true
-	case sym == "hb" || sym == "re" || sym == "x" || sym == "xd" || sym == "sw" || sym == "ri":
+	case sym == "hb" || sym == "re" || sym == "x" || sym == "xd" || sym == "sw" || sym == "ri" || sym == "ag" || sym == "aG" || sym == "a*":
 		return cur
 	case sym == "zO" || sym == "zN" || sym == "zd" || sym == "hz" || sym == "hO":
 		return zombies > 0
@@ -1302,6 +1372,74 @@ func c08Applicable(seq []string, sym string) bool {
 		return known
 	}
 	return false
+}
+
+// ---------------------------------------------------------------- long sessions (logical time)
+
+var c08LongAlpha = []string{"cA", "cB", "hb", "re", "zO", "x", "a*"}
+
+func TestVerifC08LongSession(t *testing.T) {
+	run := vk.Start(t, "C08", "longsession")
+	defer run.Finish()
+	const depth = 4
+	run.Rule(fmt.Sprintf("per backend, two nodes, lifetime 5 min: every applicable sequence of %d events over {connect@A, connect@B, heartbeat, re-login, late cleanup of the oldest abandoned connection, close, session aged (25 h / 72 h alternating)} that contains an aging event. Aging = logical time: the stored registration of the current connection is rewritten to what a handshake that long ago plus continuous heartbeat refreshes leave behind (CreatedAt in the past, lifetime renewed); the client is still connected, so every node must keep locating it (both views); distinct = backend x sequence", depth))
+	worlds := make([]*c08World, len(c08BackendNames))
+	for i, be := range c08BackendNames {
+		worlds[i] = c08NewWorld(t, run, be, c08LongTTL, 2, false)
+	}
+	var wg sync.WaitGroup
+	for i, be := range c08BackendNames {
+		w, be := worlds[i], be
+		var rec func(seq []string, hasAge bool)
+		rec = func(seq []string, hasAge bool) {
+			if run.Violations() > 20 || w.herr != "" {
+				return
+			}
+			if len(seq) == depth {
+				if !hasAge {
+					return
+				}
+				run.Case(be, seq)
+				w.reset(1)
+				cl := w.clients[0]
+				for _, s := range seq {
+					if !w.apply(cl, s) {
+						if s == "a*" {
+							continue // no registration to age on this tree: nothing to do
+						}
+						w.harnessError("sequence %v: %s not applicable on replay", seq, s)
+						return
+					}
+					w.check()
+				}
+				w.closeAll()
+				run.Eval(1)
+				run.Distinct(be + "|" + strings.Join(seq, ","))
+				run.Sample(map[string]any{"backend": be, "events": w.tail()})
+				return
+			}
+			for _, s := range c08LongAlpha {
+				if !c08Applicable(seq, s) {
+					continue
+				}
+				rec(append(append([]string(nil), seq...), s), hasAge || s == "a*")
+			}
+		}
+		wg.Add(1)
+		go func() {
+			defer wg.Done()
+			rec(nil, false)
+		}()
+	}
+	wg.Wait()
+	for i, w := range worlds {
+		herr := w.herr
+		w.close()
+		if herr != "" {
+			t.Fatalf("c08: harness error on backend %s: %s", c08BackendNames[i], herr)
+		}
+	}
+	c08Floors(run, "aged_sessions", "found_ok_long_session")
 }
 
 // ---------------------------------------------------------------- random histories
@@ -1399,10 +1537,15 @@ func c08Pick(r *rand.Rand, cl *c08Client) string {
 		return "hz"
 	case x < 96:
 		return "sw"
-	case x < 98:
+	case x < 97:
 		return "rz"
+	case x < 98:
+		return "ri"
 	}
-	return "ri"
+	if r.Intn(2) == 0 {
+		return "aG"
+	}
+	return "ag"
 }
 
 // ---------------------------------------------------------------- single storage faults
